@@ -305,11 +305,128 @@ def run_estimators(df, meta, bound):
     return sites, results, errors
 
 
+def more_sites(df, meta, bound, rng):
+    """the other public entry points that take `bound`: StochasticTMLE.exposure_model, GEstimationSNM.missing_model,
+    IPSW.sampling_model / IPSW.treatment_model / AIPSW.treatment_model (bound passed by keyword AND in its documented
+    positional slot), and the exposure models of the cross-fit estimators.  -> (sites, errors)"""
+    from zepid.causal.doublyrobust import StochasticTMLE, SingleCrossfitAIPTW, SingleCrossfitTMLE
+    from zepid.causal.snm import GEstimationSNM
+    from zepid.causal.generalize import IPSW, AIPSW
+    import zepid.causal.doublyrobust.crossfit as CF
+    from sklearn.linear_model import LogisticRegression, LinearRegression
+    rhs = meta['rhs']
+    binary = meta['outcome'] == 'binary'
+    miss = meta['missing'] is not None
+    sites, errors = {}, {}
+
+    def guard(name, fn):
+        try:
+            fn()
+        except Exception as e:   # noqa
+            errors[name] = '%s: %s' % (type(e).__name__, str(e)[:100])
+
+    def stmle():
+        d = df.dropna()
+        vals = {}
+        for bd in (False, bound):
+            st = StochasticTMLE(d, 'A', 'Y')
+            st.exposure_model(rhs, bound=bd)
+            den = np.asarray(st._denominator_, dtype=float)
+            a = np.asarray(st.df['A']).astype(int)
+            vals[bool(bd)] = np.where(a == 1, den, 1 - den)
+        sites['StochasticTMLE.exposure_model'] = (vals[False], vals[True])
+
+    def snm():
+        vals = {}
+        for bd in (False, bound):
+            g = GEstimationSNM(df, exposure='A', outcome='Y')
+            g.exposure_model(rhs, print_results=False)
+            g.structural_nested_model('A')
+            g.missing_model('A + ' + rhs, stabilized=False, bound=bd, print_results=False)
+            w = np.asarray(g.ipmw, dtype=float)
+            vals[bool(bd)] = 1 / w[~np.isnan(w)]
+        sites['GEstimationSNM.missing_model'] = (vals[False], vals[True])
+
+    def generalize():
+        import sys
+        sys.path.insert(0, __file__.rsplit('/', 1)[0])
+        from props import c16
+        d = df.dropna().reset_index(drop=True)
+        rs = np.random.RandomState(len(d))
+        d['S'] = rs.binomial(1, 1 / (1 + np.exp(-(0.4 + 0.9 * np.asarray(d[meta['covs'][0]], dtype=float)))))
+        d.loc[d['S'] == 0, ['A', 'Y']] = np.nan
+        for how in ('keyword', 'positional'):
+            for stab in (True, False):
+                tag = '(%s bound, stabilized=%s)' % (how, stab)
+                vals = {}
+                for bd in (None, bound):
+                    e = IPSW(d, exposure='A', outcome='Y', selection='S', generalize=True)
+                    if how == 'keyword':
+                        e.sampling_model(rhs, bound=bd, stabilized=stab, print_results=False)
+                    else:       # documented order: model_denominator, model_numerator, bound, stabilized, print_results
+                        e.sampling_model(rhs, '1', bd, stab, False)
+                    with c16.IptwSpy() as spy:
+                        if how == 'keyword':
+                            e.treatment_model(rhs, bound=bd, stabilized=stab, print_results=False)
+                        else:
+                            e.treatment_model(rhs, '1', bd, stab, False)
+                    vals[bd is not None] = (np.asarray(e.sample['__denom__'], dtype=float), spy.calls[-1][0], np.asarray(e.ipsw, dtype=float))
+                sites['IPSW.sampling_model' + tag] = (vals[False][0], vals[True][0])
+                sites['IPSW.treatment_model' + tag] = (vals[False][1], vals[True][1])
+                if not stab:        # unstabilised generalisation weight is exactly 1 / Pr(S=1 | W) at the clipped probability
+                    sites['IPSW.ipsw' + tag] = (vals[False][0], 1 / vals[True][2])
+                vals = {}
+                for bd in (None, bound):
+                    e = AIPSW(d, exposure='A', outcome='Y', selection='S', generalize=True)
+                    e.sampling_model(rhs, stabilized=stab, print_results=False)
+                    with c16.IptwSpy() as spy:
+                        if how == 'keyword':
+                            e.treatment_model(rhs, bound=bd, stabilized=stab, print_results=False)
+                        else:
+                            e.treatment_model(rhs, '1', bd, stab, False)
+                    vals[bd is not None] = spy.calls[-1][0]
+                sites['AIPSW.treatment_model' + tag] = (vals[False], vals[True])
+
+    def crossfit():
+        d = df.dropna().reset_index(drop=True)
+        covs = rhs
+        for cls, fname, idx in ((SingleCrossfitAIPTW, 'aipw_calculator', 4), (SingleCrossfitTMLE, 'targeting_step', 4)):
+            vals = {}
+            for bd in (False, bound):
+                got = []
+                orig = getattr(CF, fname)
+
+                def spy(*a, **k):
+                    got.append(np.asarray(k.get('pa1', a[idx] if len(a) > idx else None), dtype=float))
+                    return orig(*a, **k)
+                setattr(CF, fname, spy)
+                try:
+                    e = cls(d, 'A', 'Y')
+                    e.exposure_model(covs, LogisticRegression(penalty=None, solver='lbfgs', max_iter=2000), bound=bd)
+                    e.outcome_model('A + ' + covs, LogisticRegression(penalty=None, solver='lbfgs', max_iter=2000) if binary else LinearRegression())
+                    e.fit(n_splits=2, n_partitions=1, random_state=777)
+                finally:
+                    setattr(CF, fname, orig)
+                vals[bool(bd)] = got[0]
+            sites[cls.__name__ + '.exposure_model'] = (vals[False], vals[True])
+
+    guard('StochasticTMLE', stmle)
+    if miss:
+        guard('GEstimationSNM', snm)
+    guard('IPSW/AIPSW', generalize)
+    if binary or True:
+        guard('crossfit', crossfit)
+    return sites, errors
+
+
 def estimator_part(ctx, fails):
     cases = est_cases(ctx)
     work, exprs = [], []
     for df, meta, bkind, bound, lohi in cases:
         sites, results, errors = run_estimators(df, meta, bound)
+        s2, e2 = more_sites(df, meta, bound, ctx.rng)
+        sites.update(s2)
+        errors.update(e2)
         ctx.evaluations += 1
         ctx.count('est-bound:' + bkind)
         payload = {'part': 'estimator', 'frame': datagen.pack_frame(df), 'meta': meta, 'bound': bound}
